@@ -2,18 +2,9 @@
 
 package cache
 
-import (
-	"context"
-
-	"github.com/miekg/dns"
-)
-
 // Accessors for the C12 (bounded work per request) check. No behaviour change.
-
-// VerifC12CacheableResolutionFailure exposes cacheableResolutionFailure.
-func VerifC12CacheableResolutionFailure(ctx context.Context, res *dns.Msg) bool {
-	return cacheableResolutionFailure(ctx, res)
-}
+// (cacheableResolutionFailure is deliberately NOT exported: the driver observes it through the
+// real ResponseWriter.WriteMsg, so a change of its signature cannot break the harness build.)
 
 // VerifC12MaxCnameChaseDepth exposes the alias chase nesting cap.
 func VerifC12MaxCnameChaseDepth() int { return maxCnameChaseDepth }
